@@ -1,5 +1,6 @@
 /- Property C11: the property theorems (and nothing else). -/
-import Frugal.Proofs.EncodeRefine
+import Frugal.Proofs.SizeExact
+import Frugal.Proofs.ReaderProps
 import Frugal.Props.Instances
 namespace Frugal.C11
 open Frugal
@@ -7,4 +8,24 @@ open Frugal
 theorem holder_reemitted (S : Schema) (sid : Nat) (fs : List Val) (h : Bytes) :
     refEnc S (.strct sid) (.st fs h) = refEncFields S (S.get sid) (S.get sid).fields fs ++ h ++ [0] := by
   simp [refEnc]
+
+/-- decoding stores in the holder exactly the bytes of the unrecognised fields (unknown id, or known
+    id with another wire type), byte for byte and in message order -/
+theorem holder_is_unknown_bytes (S : Schema) (total fuel : Nat) (sd : SDesc) (fs : List (Nat × TVal))
+    (tail : Nat) (vs : List Val) (st' : LoopSt) (hh : sd.hasHolder = true)
+    (h : readFields Generated.params S total fuel sd fs tail { fs := vs } = .ok st') :
+    st'.unk = unknownBytes sd fs :=
+  holder_content _ S total fuel sd fs tail vs st' hh h
+
+/-- types without the holder drop them -/
+theorem no_holder_drops (S : Schema) (total fuel : Nat) (sd : SDesc) (fs : List (Nat × TVal))
+    (tail : Nat) (vs : List Val) (st' : LoopSt) (hh : sd.hasHolder = false)
+    (h : readFields Generated.params S total fuel sd fs tail { fs := vs } = .ok st') : st'.unk = [] :=
+  no_holder_drop _ S total fuel sd fs tail vs st' hh h
+
+/-- EncodedSize counts the retained bytes: the size walk equals the bytes written, holder included -/
+theorem size_counts_holder (S : Schema) (hS : S.ok = true) (sid : Nat) (v : Val)
+    (ht : hasTy S (.strct sid) v = true) :
+    sizeM Generated.params S sid v = (refEncStruct S sid v).length :=
+  sizeFunc_eq Instances.params_valid S hS v (.strct sid) rfl ht rfl
 end Frugal.C11
